@@ -299,6 +299,8 @@ def transl(x, y=None, z=None):
 
     if base.isscalar(x) and y is not None and z is not None:
         t = np.r_[x, y, z]
+        if t.dtype.kind in 'iub':
+            t = t.astype(np.float64)  # as for the vector form, which goes through getvector
     elif base.isvector(x, 3):
         t = base.getvector(x, 3, out='array')
     elif base.ismatrix(x, (4, 4)):
